@@ -222,9 +222,12 @@ class Emitter:
             elif mut and mut[0] == 'freeenum' and enum_k is not None and mut[1] == enum_k:
                 self.w(f'put_free_string(s, &mut doc, {self.widths()});')
             elif n['k'] == 'nullable':
-                self.w('if s.bool() { put_null(s, &mut doc); } else {')
+                # the value is always emitted (so that the string arena and the
+                # sequence of draws do not depend on the choice) and then replaced
+                # by null when the symbolic choice says so
+                self.w('{ let null = s.bool();')
                 self.put_leaf(inner)
-                self.w('}')
+                self.w(f'  if null {{ doc.toks[{pos}] = Tok::NULL; }} }}')
             else:
                 self.put_leaf(inner)
             if live:
